@@ -162,4 +162,24 @@ JudgeC02(env, m, outs) ==
             THEN "P:C02:response-sent-to-the-wrong-hop"
             ELSE IF ~ViaSeqEq(ViaStack(o.msg), Tail(s)) THEN "P:C02:remaining-Via-entries-not-intact"
             ELSE ""
+
+\* C17: the metamorphic relation between what the proxy does for a message and for its respelled / re-laid-out twin.
+\* Nothing is compared with an expectation: only the twins with each other.
+CanonOthers(hs) == LET o == SelectSeq(hs, LAMBDA h : h.cls \notin Managed) IN [i \in DOMAIN o |-> <<o[i].cn, o[i].val>>]
+BlankBranch(e) == [e EXCEPT !.params = [i \in DOMAIN @ |-> IF @[i][1] = "branch" THEN <<"branch", "">> ELSE @[i]]]
+\* the proxy's own (fresh) branch differs between the twins by design
+OutVia(m, o) == LET v == ViaStack(o.msg) IN
+                IF Len(v) = Len(ViaStack(m)) + 1 THEN <<BlankBranch(v[1])>> \o Tail(v) ELSE v
+JudgeC17(ma, outsa, mb, outsb) ==
+    IF Len(outsa) # Len(outsb) THEN "P:C17:twins-relayed-a-different-number-of-times"
+    ELSE IF \E i \in DOMAIN outsa : outsa[i].kind # outsb[i].kind \/ outsa[i].addr # outsb[i].addr \/ outsa[i].ip # outsb[i].ip
+                                     \/ outsa[i].port # outsb[i].port \/ outsa[i].proto # outsb[i].proto
+         THEN "P:C17:twins-went-to-different-destinations"
+    ELSE IF \E i \in DOMAIN outsa : ~ViaSeqEq(OutVia(ma, outsa[i]), OutVia(mb, outsb[i])) THEN "P:C17:twins-differ-in-the-relayed-Via-stack"
+    ELSE IF \E i \in DOMAIN outsa : ~RtSeqEq(RouteStack(outsa[i].msg), RouteStack(outsb[i].msg)) THEN "P:C17:twins-differ-in-the-relayed-Route-stack"
+    ELSE IF \E i \in DOMAIN outsa : ~RtSeqEq(RRStack(outsa[i].msg), RRStack(outsb[i].msg)) THEN "P:C17:twins-differ-in-the-relayed-Record-Route-stack"
+    ELSE IF \E i \in DOMAIN outsa : CanonOthers(outsa[i].msg.hdrs) # CanonOthers(outsb[i].msg.hdrs) THEN "P:C17:twins-differ-in-the-remaining-headers"
+    ELSE IF \E i \in DOMAIN outsa : outsa[i].msg.body # outsb[i].msg.body \/ outsa[i].msg.start # outsb[i].msg.start THEN "P:C17:twins-differ-in-start-line-or-body"
+    ELSE IF \E i \in DOMAIN outsa : Len(ClenLines(outsa[i].msg)) # Len(ClenLines(outsb[i].msg)) THEN "P:C17:twins-differ-in-Content-Length-fields"
+    ELSE ""
 =============================================================================
